@@ -16,12 +16,12 @@ def observe(app, op):
     return r, (r.status, code, ops.resp_gen(op, r))
 
 
-def run_history(rng, n_ops, on_step=None):
+def run_history(rng, n_ops, on_step=None, profile='default'):
     app = impl.App()
     case = []
     dump = ops.canon_dump(app.raw_dump())
     for _ in range(n_ops):
-        op = gen.gen_op(rng, dump)
+        op = gen.gen_op(rng, dump, profile)
         before = dump
         r, obs = observe(app, op)
         dump = ops.canon_dump(app.raw_dump())
